@@ -128,7 +128,10 @@ class GramCD(BaseSolver):
                              + penalty.value(w))
                     if p_obj_acc < p_obj:
                         w[:] = w_acc
-                        grad[:] = grad_acc
+                        # recompute the gradient (the extrapolated one drifts) and the
+                        # scores, which were computed for the un-extrapolated point
+                        grad[:] = scaled_gram @ w - scaled_Xty
+                        opt = penalty.subdiff_distance(w, grad, all_features)
 
             # store p_obj
             p_obj = (0.5 * w @ (scaled_gram @ w) - scaled_Xty @ w + scaled_y_norm2 +
